@@ -14,6 +14,17 @@ class BuiltinMixin:
             return self.call_builtin_method(f.bound, name[5:], args, kw, node)
         if name.startswith('opq:'):
             return self.call_opq_method(f.bound, name[4:], args, kw, node)
+        if name == 'object.__init__':
+            return NONE
+        if name.startswith('refmethod:'):
+            key = name[len('refmethod:'):]
+            c = self.contracts[key]
+            fn, owner, module, ent = self.find_function(key, c)
+            ff = FuncVal(node=fn, bound=f.bound, owner=owner, name=fn.name, module=module)
+            return self.modular_call(key, c, ff, [f.bound] + list(args), kw, node)
+        if name == 'object.__setattr__':
+            self.store_attr(f.bound, args[0].t, args[1], node, custom=False)
+            return NONE
         h = getattr(self, 'bi_' + name, None)
         if h is None:
             raise Unsupported(f'builtin {name}')
@@ -346,6 +357,17 @@ class BuiltinMixin:
             return VI(a.t)
         raise Unsupported('id()')
 
+    def bi_progressbar(self, args, kw, node):
+        return args[0]          # D5: progressbar(it, ...) is it
+
+    def bi_timeit(self, args, kw, node):
+        # D5: timeit(f, number=1) is one call of f (returns an opaque duration)
+        n = kw.get('number')
+        if n is None or _conc_int(self.as_int(n)) != 1:
+            raise Unsupported('timeit with number != 1')
+        self.call_value(args[0], [], {}, node)
+        return SV('opq', self.sym('seconds', OPQ), 'float')
+
     def bi_print(self, args, kw, node):
         return NONE
 
@@ -436,7 +458,7 @@ class BuiltinMixin:
                 enc = args[0].t if args else kw.get('encoding', VC('utf-8')).t
                 if enc != 'ascii':
                     raise Unsupported(f'encode({enc})')
-                ok = self.ufunc('all_ascii', SEQ, BOOL)(s)
+                ok = self.all_ascii(s)
                 if not self.branch(ok):
                     raise PyRaise('UnicodeEncodeError')
                 return SV('bytes', s)
@@ -468,25 +490,44 @@ class BuiltinMixin:
         return VC(fmt.format(*vals))
 
     def concretise(self, t, node=None, limit=64):
-        """finite-domain concretisation: case split over every value t can take under the path condition (<= limit values)"""
+        """finite-domain concretisation: case split over every value t can take under the (sequence-free over-approximation
+        of the) path condition; at most `limit` values, otherwise Unsupported.  A superset of the feasible values is sound:
+        the extra cases are infeasible paths."""
+        from .solve import SeqAbstraction
+        orc = self.st.oracle
+        if orc.replaying():
+            e = orc.next_entry()
+            v = e[1]
+            self.assume(t == v)
+            return v
+        a = SeqAbstraction()
+        fs = a.formulas(list(self.st.pc))
+        tv = z3.Int('concretise!target')
+        fs.append(tv == a.tr(z3.simplify(t)))
+        fs = fs + a.side
         s = z3.Solver()
-        s.set('timeout', 2000)
-        s.add(*self.st.pc)
+        s.set('timeout', 1000)
+        s.add(*fs)
         vals = []
-        while len(vals) <= limit:
-            if s.check() != z3.sat:
+        while True:
+            r = s.check()
+            if r == z3.unsat:
                 break
-            v = s.model().eval(t, model_completion=True).as_long()
+            if r != z3.sat or len(vals) >= limit:
+                raise Unsupported('finite-domain concretisation: domain not provably small')
+            v = s.model().eval(tv, model_completion=True).as_long()
             vals.append(v)
-            s.add(t != v)
-        else:
-            raise Unsupported('finite-domain concretisation: more than 64 values')
-        if len(vals) > limit or not vals:
-            raise Unsupported('finite-domain concretisation failed (unbounded or infeasible)')
+            s.add(tv != v)
+        if not vals:
+            raise PathEnd('infeasible')
         vals.sort()
-        v = vals[self.st.oracle.choose(len(vals))]
-        self.assume(t == v)
-        return v
+        base = orc.prefix[:orc.pos]
+        for v in vals[1:]:
+            orc.new.append(base + [('v', v)])
+        orc.prefix.append(('v', vals[0]))
+        orc.pos += 1
+        self.assume(t == vals[0])
+        return vals[0]
 
     # ------------------------------------------------------------ X-STRUCT / X-FLOAT: struct.Struct(fmt).pack
     def struct_pack(self, fmt, args, node):
